@@ -114,8 +114,9 @@ SPLITTER_ATTRS = ["Splitter._markiter", "Splitter._unaccepted_mark", "Splitter._
 
 @contract("bibtexparser.splitter.Splitter.split#new")
 class _:
-    """interface used by the entry points (the splitter's own contracts are in contracts/splitter.py):
-    without a target library a fresh one is returned"""
+    """interface used by the entry points: without a target library a fresh one is returned.  The same clauses (result,
+    no exception, footprint) are PROVED for the real function as split#new / split#into in contracts/splitter.py (check
+    C01); here they are imported as an interface so that the mark model stays out of the entry-point proofs."""
     trusted = True
     sorts = {"self": "ref:Splitter", "library": "none", "result": "ref:Library"}
     ensures = {"split-target": "fresh(result)", "split-ghost": "ghost('split_out') == ref_id(result)"}
